@@ -17,6 +17,10 @@ Oracle: the reference interpreter of mc/prog.py, which implements exactly the st
 data over surroundings, fills see aliases > inner data > between-bindings > outer variables),
 plus: the caller's Context (dicts, flatten(), render_context depth) is unchanged by the render.
 
+Loop-state family: fills generated inside 1-3 nested loops between the tag and the fill (dynamic fill names), the
+tag inside 0-2 further loops; every fill prints its loop variables and the whole forloop / parentloop counter chain -
+the state of the enclosing loops *at the position of the fill* - against plain Python loops.
+
 Agnostic corners kept out of every verdict (DESIGN C03 i-vi): loop variables around a component
 tag (only `with` is used there); `with` between tag and fill in isolated mode when its name
 collides; fills of a component called with `only` in django mode; bindings around the slot are
@@ -366,6 +370,124 @@ def worker(w, W, payload):
     return agg
 
 
+# ------------------------------------------------------------------ loop-state family
+# "fill content ... evaluates as it would at the position of the {% component %} tag, extended only by its enclosing
+# loops": the *state* of those loops (loop variable, forloop.counter, forloop.parentloop...counter) is part of that.
+# Fills are generated inside d_in nested loops written between the component tag and the fill (dynamic fill names),
+# the tag itself sits inside d_out loops; every fill prints the whole counter chain it sees.  The component's template
+# prints its slots in reverse order, optionally from inside a loop of its own, optionally the component is nested in
+# another component (deferred render).  Expected text is computed with plain Python loops.
+LS_ITEMS = ("a", "b")
+
+
+def loopstate_cases(tier):
+    thorough = tier == "thorough"
+    for d_in in (1, 2, 3):
+        for d_out in (0, 1, 2):
+            if d_in + d_out > (4 if thorough else 3):
+                continue
+            for with_between in (False, True):
+                for slot_in_loop in (False, True):
+                    for nested in (False, True):
+                        for only in (False, True):
+                            yield {"d_in": d_in, "d_out": d_out, "with_between": with_between, "slot_in_loop": slot_in_loop,
+                                   "nested": nested, "only": only}
+
+
+def loopstate_build(c):
+    """-> (page source, {component name: template}, expected output)"""
+    d_in, d_out = c["d_in"], c["d_out"]
+    depth = d_in + d_out
+    chain = "/".join("{{ forloop." + "parentloop." * k + "counter }}" for k in range(depth))
+    names_in = ["i%d" % k for k in range(d_in)]
+    name_expr = names_in[0] + "".join("|add:" + n for n in names_in[1:])
+    body = "{% fill name=" + name_expr + " %}<" + "".join("{{ %s }}" % n for n in names_in) + ":" + chain + ("+{{ w }}" if c["with_between"] else "") + ">{% endfill %}"
+    if c["with_between"]:
+        body = "{% with w=" + names_in[-1] + " %}" + body + "{% endwith %}"
+    for n in reversed(names_in):
+        body = "{% for " + n + " in items %}" + body + "{% endfor %}"
+    tag = "{% component 'ls_c' " + ("only " if c["only"] else "") + "%}" + body + "{% endcomponent %}"
+    if c["nested"]:
+        tag = "{% component 'ls_wrap' %}" + tag + "{% endcomponent %}"
+    page = "{{ o0 }}" .replace("{{ o0 }}", "") + tag
+    for k in range(d_out):
+        page = "{% for o" + str(k) + " in items %}" + page + "{% endfor %}"
+    # component template: slots in reverse lexicographic order
+    slot_names = ["".join(t) for t in itertools.product(LS_ITEMS, repeat=d_in)]
+    if c["slot_in_loop"]:
+        tpl = "{% for sn in slot_names %}{% slot sn / %}{% endfor %}"
+    else:
+        tpl = "".join("{% slot '" + n + "' / %}" for n in reversed(slot_names))
+    comps = {"ls_c": tpl, "ls_wrap": "(W{% slot 'default' default / %})"}
+
+    def counters(idx_in, idx_out):
+        # innermost first: inner loops reversed, then the loops around the tag reversed
+        seq_ = list(reversed(idx_in)) + list(reversed(idx_out))
+        return "/".join(str(i + 1) for i in seq_)
+
+    out = []
+    for idx_out in itertools.product(range(len(LS_ITEMS)), repeat=d_out):
+        piece = []
+        for name in reversed(slot_names):
+            idx_in = [LS_ITEMS.index(ch) for ch in name]
+            piece.append("<" + name + ":" + counters(idx_in, idx_out) + ("+" + name[-1] if c["with_between"] else "") + ">")
+        txt = "".join(piece)
+        out.append("(W" + txt + ")" if c["nested"] else txt)
+    return page, comps, "".join(out)
+
+
+def loopstate_run(c, mode):
+    from django.template import Context, Template
+
+    from django_components import Component
+    from django_components.component_registry import registry
+
+    page, comps, want = loopstate_build(c)
+    slot_names = ["".join(t) for t in itertools.product(LS_ITEMS, repeat=c["d_in"])]
+
+    def gcd(self, **kw):
+        return {"slot_names": list(reversed(slot_names))}
+
+    for name, tpl in comps.items():
+        if name in registry.all():
+            registry.unregister(name)
+        registry.register(name, type("LS_" + name, (Component,), {"template": tpl, "get_context_data": gcd, "__module__": "verif_c03"}))
+    try:
+        got = ("ok", strip_markers(Template(page).render(Context({"items": list(LS_ITEMS)}))))
+    except Exception as e:  # noqa
+        got = ("err", type(e).__name__, str(e)[:200])
+    boot.clear_render_registries()
+    for name in comps:
+        registry.unregister(name)
+    return page, comps, want, got
+
+
+def loopstate_worker(w, W, payload):
+    tier, mode = payload
+    boot.set_components_setting(context_behavior=mode)
+    agg = par.Agg()
+    for i, c in enumerate(loopstate_cases(tier)):
+        if i % W != w:
+            continue
+        if mode == "django" and c["only"]:
+            continue  # agnostic (iii): fills of a component called with `only` in django mode
+        if mode == "django" and c["slot_in_loop"]:
+            continue  # agnostic (iv): a loop around the slot inside the component's template binds `forloop` too
+        agg.states += 1
+        agg.transitions += 1
+        page, comps, want, got = loopstate_run(c, mode)
+        agg.validated += 1
+        if c["d_in"] + c["d_out"] >= 2:
+            agg.nontrivial += 1
+        agg.expected["depth_in=%d,out=%d" % (c["d_in"], c["d_out"])] += 1
+        agg.observe(got)
+        if got != ("ok", want):
+            agg.fail(f"{mode}:loop-state:in={c['d_in']},out={c['d_out']}" + (",with" if c["with_between"] else "") + (",nested" if c["nested"] else ""),
+                     f"[{mode}] page {page!r} with ls_c = {comps['ls_c']!r}: expected {want!r}, got {got!r}",
+                     {"mode": mode, "family": "loopstate", "case": c, "page": page})
+    return agg
+
+
 def run(ctx):
     ev = ctx.ev
     ev.rule = ("scoping family page -> outer -> inner(slot): all assignments of the names {x,y} to 8 binding roles x kwargs passing x only flags x body kinds x "
@@ -375,6 +497,14 @@ def run(ctx):
         ev.add_part(f"family_{mode}", states=agg.states, transitions=agg.transitions, validated=agg.validated, nontrivial=agg.nontrivial,
                     observed_distinct=len(agg.observed), expected=agg.expected, bound={"names": 2, "roles": 8, "tier": ctx.tier}, samples=agg.samples[:1])
         ctx.fnd.merge_reports(sorted(agg.failures, key=lambda f: (len(f[2].get("page", "")), f[0])))
+    for mode in ("django", "isolated"):
+        agg = par.run_sharded(loopstate_worker, (ctx.tier, mode))
+        ev.add_part(f"loop_state_{mode}", states=agg.states, transitions=agg.transitions, validated=agg.validated, nontrivial=agg.nontrivial,
+                    observed_distinct=len(agg.observed), expected=agg.expected,
+                    bound={"loops_between_tag_and_fill": "1..3", "loops_around_tag": "0..2", "total_depth": 4 if ctx.tier == "thorough" else 3,
+                           "with_between": 2, "slot_in_loop": 2, "nested_in_component": 2, "only": 2, "items_per_loop": len(LS_ITEMS)},
+                    samples=[{"page": loopstate_build({"d_in": 2, "d_out": 0, "with_between": False, "slot_in_loop": False, "nested": False, "only": False})[0]}])
+        ctx.fnd.merge_reports(sorted(agg.failures, key=lambda f: (len(f[2].get("page", "")), f[0])))
     boot.set_components_setting(context_behavior="django")
     ev.assumptions = ["the six agnostic corners of DESIGN C03 are kept out of the generator", "two names, one slot, nesting depth 2-3"]
 
@@ -382,6 +512,13 @@ def run(ctx):
 def replay(ctx, case):
     mode = case["mode"]
     boot.set_components_setting(context_behavior=mode)
+    if case.get("family") == "loopstate":
+        page, comps, want, got = loopstate_run(case["case"], mode)
+        print("page:    ", page)
+        print("ls_c:    ", comps["ls_c"])
+        print("expected:", want)
+        print("observed:", got)
+        return got == ("ok", want)
     c = PCase() if case["case"].get("family") == "passthrough" else Case()
     for k, v in case["case"].items():
         if k != "family":
